@@ -103,6 +103,11 @@ def handle (opname : String) (a : Args) : Option String :=
   | "gb_glrd" => run (do
       let l ← int; let r ← int; let d ← int; let ds ← draws
       pure (fmtOut fmtBip (leftRegular l r d ds))) a
+  | "gb_glrd_big" => run (do
+      -- `r > sys.maxsize`: the run without the (r + 1)-entry right adjacency table
+      -- (`leftRegularNoRadj_eq`: the model's run minus that table); the left view only is printed
+      let l ← int; let r ← int; let d ← int; let ds ← draws
+      pure (fmtOut (fun G => s!"BL {G.l} {G.r} {G.numberOfEdges} {fmtPairs G.edges}") (leftRegularNoRadj l r d ds))) a
   | "gb_glrm" => run (do
       let l ← int; let r ← int; let m ← int; let ds ← draws
       pure (fmtOut fmtBip (randomMEdges l r m ds))) a
